@@ -4,7 +4,7 @@ from __future__ import annotations
 from .. import compat
 from ..effect_machine import EffectMachine, Ref
 from ..gen import loops as LG
-from ..interp import Core, Violation, check_dominance
+from ..interp import Core, StepLimit, Violation, check_dominance
 from .accfg_common import Rejected, compile_variant, digest_of, merge, new_outcome
 
 ID = "C17"
@@ -58,10 +58,15 @@ def execute(case):
         a = EffectMachine(P)
         a.run_single("f", args_for(env), Core(0))
         b = EffectMachine(S)
+        b.step_limit = max(20_000, 40 * a.steps)
         try:
             b.run_single("f", args_for(env), Core(0))
         except Violation as v:
             out.update(status="violation", oracle=v.oracle, message=v.message, env_index=i)
+            return out
+        except StepLimit:
+            # the original finished; a transformed program that needs > 40x its steps executes other operations
+            out.update(status="violation", oracle="effect-trace", message=f"the transformed program executes more than 40x the {a.steps} steps of the original (first {len(b.hist)} events vs {len(a.hist)} in total)", env_index=i)
             return out
         if a.hist != b.hist:
             k = next((j for j, (x, y) in enumerate(zip(a.hist, b.hist)) if x != y), min(len(a.hist), len(b.hist)))
